@@ -40,7 +40,7 @@
       analyser.cpp: "Determine the type of our model"); the model skips the voi then, the C++ would crash. *)
 From Coq Require Import String Ascii List Bool Arith.
 From LC Require Import Common AstDefs GenDefs.
-From LCGen Require Import AstTypes ProfileStrings.
+From LCGen Require Import AstTypes ProfileStrings ProfileMembers.
 Import ListNotations.
 Local Open Scope string_scope.
 Local Open Scope bool_scope.
@@ -792,3 +792,30 @@ Definition element_name (h : helper) : string :=
   | HSech => "sech" | HCsch => "csch" | HCoth => "coth" | HAsec => "arcsec" | HAcsc => "arccsc" | HAcot => "arccot"
   | HAsech => "arcsech" | HAcsch => "arccsch" | HAcoth => "arccoth"
   end.
+
+(** ** generateMethodBodyCode: what fills a [Hole] — an empty body is replaced by the profile's empty-method text *)
+Definition method_body_code (p : profile) (body : string) : string :=
+  if is_empty body
+  then (if is_empty (empty_method_string p) then "" else indent_string p ++ empty_method_string p)
+  else body.
+
+(** ** the GeneratorProfile object and its history
+    generatorprofile.cpp: every data member of GeneratorProfileImpl has a public setter that assigns it;
+    GeneratorProfileImpl::loadProfile assigns the members of LCGen.ProfileMembers.assigned_members (the same list in the C
+    and in the PYTHON branch: the translator fails otherwise) and leaves every other member as it is;
+    GeneratorProfile::setProfile(profile) = mPimpl->loadProfile(profile), and so does the constructor. *)
+Section ProfileObject.
+  Variable value : Type.
+  Variable builtin : pkind -> string -> value.     (* the right-hand sides in the two branches of loadProfile *)
+  Definition pstate := string -> value.            (* member name -> current value *)
+  Definition set_member (n : string) (v : value) (st : pstate) : pstate :=
+    fun x => if String.eqb x n then v else st x.
+  Definition load_profile (k : pkind) (st : pstate) : pstate :=
+    fun x => if existsb (String.eqb x) assigned_members then builtin k x else st x.
+  Definition set_profile (k : pkind) (st : pstate) : pstate := load_profile k st.
+  (* a history: setter calls on an object, oldest first *)
+  Definition apply_history (h : list (string * value)) (st : pstate) : pstate :=
+    fold_left (fun st nv => set_member (fst nv) (snd nv) st) h st.
+End ProfileObject.
+
+Definition known_unassigned_members : list string := ["mPiecewiseIfString"; "mPiecewiseElseString"].
